@@ -272,6 +272,19 @@ func (h *FBDNSDB) ServeDNSWithRCODE(ctx context.Context, w dns.ResponseWriter, r
 		h.stats.IncrementCounter("DNS_response.refused")
 		m := new(dns.Msg)
 		m.SetRcode(r, dns.RcodeRefused)
+		// echo the client subnet option like every other response does
+		// (https://tools.ietf.org/html/rfc7871#section-7.2.1)
+		if r.IsEdns0() != nil {
+			o = new(dns.OPT)
+			o.Hdr.Name = "."
+			o.Hdr.Rrtype = dns.TypeOPT
+
+			if ecs != nil {
+				o.Option = append(o.Option, ecs)
+			}
+
+			m.Extra = append(m.Extra, o)
+		}
 		// does not matter if this write fails
 		return h.writeAndLog(state, m, ecs)
 	}
